@@ -1,6 +1,7 @@
 (** C16 — Signals equal their definitions over the trailing window of supplied closes. *)
 From Coq Require Import ZArith QArith String List.
-From QS Require Import theories.Num theories.Portfolio theories.Signals proofs.SignalProofs.
+From QS Require Import theories.Num theories.Position theories.Portfolio theories.Clock theories.PCM theories.Signals theories.Backtest
+  proofs.SignalProofs proofs.SessionSignals.
 Import ListNotations.
 Open Scope Q_scope.
 
@@ -45,6 +46,39 @@ Theorem windows_are_independent : forall lbs assets apps a n w,
   w = lastn n (stream_of a apps).
 Proof. exact windows_independent. Qed.
 Print Assumptions windows_are_independent.
+
+(** During a backtest: the signals are touched at market-close events and by nothing else ... *)
+Theorem signals_change_only_at_market_close :
+  forall cfg sched st t k snap st' outs,
+    event_step cfg sched st t k snap = (st', outs, None) ->
+    match k with
+    | MarketClose => signals_update cfg (ss_sig st) t snap = Ok (ss_sig st')
+    | _ => ss_sig st' = ss_sig st
+    end.
+Proof. exact event_step_signals. Qed.
+Print Assumptions signals_change_only_at_market_close.
+
+(** ... and one close does exactly this: the tracked asset list becomes (old list) ++ (universe
+    members not yet tracked); EVERY tracked asset receives exactly one observation - that close's
+    price - into every window (so a newly tracked asset starts from an empty window); the warm-up
+    counter advances by one. *)
+Theorem one_observation_per_asset_per_close :
+  forall cfg g t snap g' lbs hist,
+    c_lookbacks cfg = Some lbs ->
+    windows_ok (map S lbs) (g_mom g) hist -> windows_ok lbs (g_sma g) hist ->
+    signals_update cfg g t snap = Ok g' ->
+    g_assets g' = update_assets (g_assets g) (universe_assets (c_univ cfg) t) /\
+    g_warm g' = S (g_warm g) /\
+    windows_ok (map S lbs) (g_mom g') (hist ++ obs_of snap (g_assets g')) /\
+    windows_ok lbs (g_sma g') (hist ++ obs_of snap (g_assets g')) /\
+    length (obs_of snap (g_assets g')) = length (g_assets g').
+Proof. exact signals_update_spec. Qed.
+Print Assumptions one_observation_per_asset_per_close.
+
+Theorem tracked_iff_member_now_or_before :
+  forall assets univ a, In a (update_assets assets univ) <-> In a assets \/ In a univ.
+Proof. exact update_assets_in. Qed.
+Print Assumptions tracked_iff_member_now_or_before.
 
 (** Non-vacuity *)
 Example signals_nonvacuous :
